@@ -339,6 +339,9 @@ def run(ctx, rep, model=None):
         vals = mod.toplevel.get(name)
         if vals and isinstance(vals[-1], ast.Call) and A.call_name(vals[-1]) == "object" and not vals[-1].args:
             return True, _sent.setdefault(name, MI.ModelObj("sentinel " + name))
+        v = ctx.try_fold(ast.Name(id=name, ctx=ast.Load()), mod)
+        if v is not None:
+            return True, v
         return False, None
     # the undumpable default: the function every path of which raises TypeError
     refusers = []
@@ -371,10 +374,17 @@ def run(ctx, rep, model=None):
             out = "returns"
         except MI.Raised as r_:
             out = "raises " + r_.name
+        except AnalysisError as e_:
+            rep.undecided("R04.2", "the dispatch of brine._dump", str(e_))
+            bad_d = None
+            break
         good = (want != "refused" and out == "returns" and calls_d == [(want, obj, stream)] and not stream) or \
                (want == "refused" and out == "raises TypeError" and not stream and all(c[0] == "refused" for c in calls_d))
         if not good:
             bad_d.append("a value of %s: %s, calls %s, emitted %r" % (tp.name, out, [c[0] for c in calls_d], stream))
+    if bad_d is None:
+        bad_d = []
+        refusers = refusers or ["<undecided>"]
     rep.ob("R04.2", "brine._dump: dispatch key is the exact type of the value", not bad_d,
            "model: the dumper registered for type(obj) is called once with (obj, stream); an unregistered type is refused with "
            "TypeError; _dump emits nothing itself" if not bad_d else "; ".join(bad_d), f_dump.loc, kind="table")
@@ -465,6 +475,10 @@ def run(ctx, rep, model=None):
             out = ("imm", got) if not lcalls else ("loader", got)
         except MI.Raised as r_:
             out = ("raise", None)
+        except AnalysisError as e_:
+            rep.undecided("R04.4", "the dispatch of brine._load", str(e_))
+            bad_l = []
+            break
         if out != want or reads != [1] or (want[0] == "loader" and lcalls != [stream_obj]):
             bad_l.append("tag %r: %s after reads %s" % (tag, out, reads))
     okl = not bad_l
